@@ -263,13 +263,15 @@ fn report(odd: i64, lat: i64, lon: i64) -> adsb_deku::Altitude {
 
 fn pair_out(first: &adsb_deku::Altitude, second: &adsb_deku::Altitude) -> (Value, Option<(f64, f64)>) {
     match catch_unwind(AssertUnwindSafe(|| adsb_deku::cpr::get_position((first, second)))) {
-        Err(_) => (json!({"outcome": "panic", "some": 0, "lat": 0, "lon": 0}), None),
-        Ok(None) => (json!({"outcome": "ok", "some": 0, "lat": 0, "lon": 0}), None),
+        Err(_) => (json!({"outcome": "panic", "some": 0, "lat": 0, "lon": 0, "inrange": 1}), None),
+        Ok(None) => (json!({"outcome": "ok", "some": 0, "lat": 0, "lon": 0, "inrange": 1}), None),
         Ok(Some(p)) => {
             let finite = p.latitude.is_finite() && p.longitude.is_finite();
             (
+                // inrange: the exact (unrounded) values lie in [-90, 90] x [-180, 180)
                 json!({"outcome": if finite { "ok" } else { "nonfinite" }, "some": 1,
-                       "lat": project::scaled(p.latitude, 1e6), "lon": project::scaled(p.longitude, 1e6)}),
+                       "lat": project::scaled(p.latitude, 1e6), "lon": project::scaled(p.longitude, 1e6),
+                       "inrange": i64::from((-90.0..=90.0).contains(&p.latitude) && p.longitude >= -180.0 && p.longitude < 180.0)}),
                 Some((p.latitude, p.longitude)),
             )
         }
